@@ -101,6 +101,12 @@ def body_frozen(pid, backing, n, *args):
         fz2 = ds.copy(freeze=True)          # ... and is frozen once more
         _ = list(fz2)
     b = list(fz)
+    if pid != 'oneshot' and n > 0:
+        # a copy of the frozen copy, and stages that copy per iteration, are faithful also after the original moved on
+        if list(fz.copy()) != a or list(fz.copy(freeze=True)) != a:
+            return False
+        if pid in ('reshuffle', 'reshuffle_map') and list(fz.catch()) != a:
+            return False
     it = iter(fz)
     first = [next(it)] if len(a) else []
     if pid != 'oneshot':
